@@ -881,6 +881,11 @@ class PDFFont:
         self.fontname = resolve1(descriptor.get("FontName", "unknown"))
         if isinstance(self.fontname, PSLiteral):
             self.fontname = literal_name(self.fontname)
+        elif isinstance(self.fontname, bytes):
+            self.fontname = self.fontname.decode("latin1")
+        elif not isinstance(self.fontname, str):
+            # neither a name nor a string
+            self.fontname = "unknown"
         self.flags = int_value(descriptor.get("Flags", 0))
         self.ascent = num_value(descriptor.get("Ascent", 0))
         self.descent = num_value(descriptor.get("Descent", 0))
